@@ -121,12 +121,19 @@ def check_split_file(ctx, F, path, ns, chns, what="ap", ratio=1):
     return np2env.records_view(recs, ncols)
 
 
-def case_split(ctx, mapname, window, K, fs_txt="30000"):
+def case_split(ctx, mapname, window, K, fs_txt="30000", rerun=False):
     import spikeglx
+    import neuropixel
     shank_of = MAPS[mapname]
     conv, F, ns, nc = build_np24(ctx, shank_of, window, K, fs_txt=fs_txt)
     status = ctx.call("process", conv.process)
     ctx.oblige("status_is_one", status == 1, detail={"status": status})
+    if rerun:
+        # the split is run again over its own (uncompressed) output with overwrite=True: the files must hold ONE copy of the samples
+        conv2 = ctx.call("converter_init", neuropixel.NP2Converter, FakePath("/s/probe00/x.imec0.ap.bin"), post_check=False, compress=False, delete_original=False)
+        conv2.init_params(nwindow=window, extra="_t")
+        status = ctx.call("process_again", conv2.process, overwrite=True)
+        ctx.oblige("status_is_one", status == 1, detail={"status": status, "run": 2})
     shanks = sorted(set(shank_of))
     p = ctx.int("p", 0)
     ctx.assume(p < ns)
@@ -232,6 +239,7 @@ def cases(tier):
     for mp in b["maps"]:
         for w in b["windows"]:
             cs.append(Case(f"split_{mp}_w{w}", "case_split", {"mapname": mp, "window": w, "K": b["K"]}, timeout_s=2400))
+    cs.append(Case("split_contig_w1200_rerun_overwrite", "case_split", {"mapname": "contig", "window": 1200, "K": 2, "rerun": True}, timeout_s=2400))
     for n in (2, 3, 4) if tier == "quick" else (2, 3, 4, 5, 6):
         cs.append(Case(f"chans_text_{n}", "case_chans_text_roundtrip", {"n": n}))
     for mp in (["contig", "interleaved"] if tier == "quick" else list(MAPS)):
@@ -305,6 +313,13 @@ conv = neuropixel.NP2Converter(d / 'x.imec0.ap.bin', post_check=False, compress=
 conv.init_params(nwindow=window, extra='_t')
 try:
     st = conv.process()
+    if {bool(params.get('rerun'))}:
+        conv2 = neuropixel.NP2Converter(d / 'x.imec0.ap.bin', post_check=False, compress=False)
+        conv2.init_params(nwindow=window, extra='_t')
+        st = conv2.process(overwrite=True)
+        for sh in conv2.shank_info.values():
+            for k, f in sh.items():
+                if k.endswith('open_file') and not f.closed: f.flush()
 except Exception as e:
     reproduced(f'process raised {{type(e).__name__}}: {{e}} for ns={{ns}} window={{window}}')
 bad = []
